@@ -1,12 +1,20 @@
 /-
-C06 — filters keep exactly the measurements their boolean meaning denotes. Property theorems only
-(helpers: Proofs/Lemmas/C06Bits, C06Mask, C06Eval, C06Walk, C06Match, C06Proj).
+C06 — filters keep exactly the measurements their boolean meaning denotes. Property theorems only.
+Helpers: Proofs/Lemmas/C06Bits, C06Mask, C06Eval, C06Walk, C06Match, C06Proj (evaluator);
+C06Heap (aliasing); C06Tok, C06Surface, C06Parse, C06ParseInd, C06WF (text level, on top of the
+C07 parser model and lemmas, which are imported read-only).
 
 Vocabulary: `walk re e = .ok f` — NewFilter accepted the tree `e` and compiled it to the
 closure `f` (`re` is the regexp oracle); `filterMatch f res` — `Filter.Match`;
-`filterApply f res` — `Filter.Apply`; `denote re res i e` — ⟦e⟧ res i (Model/Spec/FilterSem).
-All statements hold for every tree, every result and every measurement count (any number of
-mask words).
+`filterApply f res` — `Filter.Apply`; `denote re res i e` — ⟦e⟧ res i (Model/Spec/FilterSem);
+`filterOfText cx text` — `parse.ParseFilter(text)` through the C07 parser model;
+`newFilterText cx re text` — `benchproc.NewFilter(text)` end to end.
+All statements hold for every tree / every text of the stated form, every result and every
+measurement count (any number of mask words).
+
+Sections: tree level (eval_test … fixed_projection_*), aliasing (heap model), text level
+(eval_test_text, text_semantics and its instances value_list_sugar_text, juxtaposition_is_and,
+or_is_or, minus_is_not, star_is_true; text_accepted_converts, newFilter_models_agree).
 -/
 import Proofs.Lemmas.C06Walk
 import Proofs.Lemmas.C06Match
